@@ -71,6 +71,15 @@ def twin_stream(ctx):
             active = active or nu < 1
             if nu * nu * abs(s) > kl * (1 + 1e-9):
                 ctx.fail('bound nu² lr² |Σ<V,D>| ≤ kl_clip violated by the formula itself', case, 'bound')
+            # ONE scalar for every rank: all ranks multiply the same preconditioned gradients (broadcast, or computed from the
+            # same broadcast second-order data) by it, so the final gradients agree bit for bit across ranks
+            for r in range(1, cfg.world):
+                for l in range(len(V)):
+                    if not torch.equal(rr.res[r]['ops'][j]['grads'][l], rr.res[0]['ops'][j]['grads'][l]):
+                        ctx.fail(f'step {steps - 1}: the final gradient of layer {l} differs between rank 0 and rank {r} '
+                                 f'(relative {kfacsim.relerr(rr.res[r]["ops"][j]["grads"][l], rr.res[0]["ops"][j]["grads"][l]):.2e}): '
+                                 'the clip scalar is not shared by every rank', dict(case, op_index=j), 'nu-differs-across-ranks')
+                        break
             for r in range(cfg.world):
                 for l, v in enumerate(V):
                     got = rr.res[r]['ops'][j]['grads'][l]
